@@ -42,5 +42,18 @@ def resolve(F, names, optional=()):
     return roots
 
 
-def scope(F, names, optional=()):
-    return F.reach(resolve(F, names, optional))
+def fmt_impls(F):
+    """hand-written Debug / Display impls of crate types: they run whenever a value is formatted (error messages, log lines),
+    through a function pointer the call graph does not show, so they are added to every safety scope."""
+    out = []
+    for p, b in F.bodies.items():
+        if b.kind == "AssocFn" and b.impl_of and b.impl_of.rsplit("::", 1)[-1] in ("Debug", "Display") and p.rsplit("::", 1)[-1] == "fmt":
+            out.append(p)
+    return out
+
+
+def scope(F, names, optional=(), with_fmt=False):
+    roots = resolve(F, names, optional)
+    if with_fmt:
+        roots = roots + fmt_impls(F)
+    return F.reach(roots)
